@@ -5,6 +5,7 @@ import (
 	"math"
 	"os"
 	"sort"
+	"strings"
 	"sync"
 	"time"
 
@@ -754,6 +755,18 @@ func (l *RecLogger) Append(cm commit.Commit) error {
 					runs[n-1][1] = o
 				} else {
 					runs = append(runs, [2]int{o, o})
+				}
+			}
+			dec = kept
+		}
+		if d, ok := c.Desc(u.Column); ok && d.Kind == "key" && c.Restoring {
+			// filler rows of a keyed collection carry a key of their own ("f<n>") which the model
+			// does not track: their puts are part of the runs above
+			var kept []Ev
+			for _, e := range dec {
+				v, _ := e["v"].(string)
+				if w.IsTracked(uint32(e["o"].(int))) || e["k"] != "put" || !strings.HasPrefix(v, "unk:66") {
+					kept = append(kept, e)
 				}
 			}
 			dec = kept
